@@ -184,12 +184,12 @@ func TestC08(t *testing.T) {
 			}
 		})
 	}
-	special("overlap", kit.Pick(4000, 200000), gen.OverlapSchema, func(rt *rapid.T) *ref.Doc {
+	special("overlap", kit.Pick(12000, 400000), gen.OverlapSchema, func(rt *rapid.T) *ref.Doc {
 		return gen.OverlapDocument(rt, rapid.IntRange(0, 3).Draw(rt, "acyclic") != 0)
 	})
-	special("introspection", kit.Pick(2500, 100000), c08Schema, gen.IntrospectionDocument)
-	run("valid", 0, kit.Pick(1500, 100000))
-	run("faulty", 1, kit.Pick(3000, 200000))
-	run("blind", 2, kit.Pick(1500, 100000))
+	special("introspection", kit.Pick(7500, 200000), c08Schema, gen.IntrospectionDocument)
+	run("valid", 0, kit.Pick(4500, 200000))
+	run("faulty", 1, kit.Pick(9000, 400000))
+	run("blind", 2, kit.Pick(4500, 200000))
 	_ = ref.DocOpts{}
 }
